@@ -167,6 +167,7 @@ type Lemma struct {
 	Line  int
 	File  string
 	Uses  []string // axioms are always in scope; lemmas cited here are assumed
+	Reveals []string // opaque spec functions whose definition the proof of the lemma may use
 	Induction string // variable to do induction on ("" = direct proof)
 	Yields    Expr   // optional consequence (proved from Body); what users of the lemma get
 }
@@ -374,6 +375,11 @@ func parseSpecFile(pkg, file, src string) (*SpecFile, error) {
 					}
 				} else if p.acceptKw("induction") {
 					l.Induction, err = p.ident()
+					if err != nil {
+						return nil, err
+					}
+				} else if p.acceptKw("reveal") {
+					l.Reveals, err = p.identList()
 					if err != nil {
 						return nil, err
 					}
